@@ -568,6 +568,7 @@ pub fn history_noise(n: usize) {
             let mut buf = vec![b'#'; 300];
             let _ = f.get_key_into(9, &mut buf);
         }
+        // (the epilogue below decides what this thread did LAST before the next judged operation)
         // the same bytes again at (possibly) the same address under another version label
         let mut again = bytes.clone();
         if again.len() > 40 {
@@ -576,6 +577,64 @@ pub fn history_noise(n: usize) {
             if let Ok(f) = Fst::new(&again[..]) {
                 let _ = f.get(&keys[0]);
                 let _ = f.verify();
+            }
+        }
+        // EPILOGUE: successful library use "heals" most leftovers (the next builder or stream consumes or resets them), so the very
+        // last thing the thread does before the judged operation rotates over the kinds of unfinished business
+        match n % 4 {
+            0 => {
+                // a wide node whose single large write fails half-way
+                let total = 40 + (n / 4 * 53) % 200;
+                let sink = crate::sinks::Sink::new(crate::sinks::Policy::Capacity { total, chunk: usize::MAX, fault: crate::sinks::Fault::Err(std::io::ErrorKind::Other) });
+                if let Ok(mut b) = Builder::new(sink) {
+                    for c in 0..40u8 {
+                        if b.insert([b'#' + c * 2], c as u64 * 300 + 1).is_err() {
+                            break;
+                        }
+                    }
+                    let _ = b.finish();
+                }
+            }
+            1 => {
+                // a builder abandoned with keys on its unfinished stack
+                let mut b = Builder::memory();
+                let _ = b.insert("qa", 4);
+                let _ = b.insert("qab", 5);
+                let _ = b.insert("qb", 1);
+            }
+            2 => {
+                // a small node whose write fails after one byte, then nothing else
+                let sink = crate::sinks::Sink::new(crate::sinks::Policy::Capacity { total: 17, chunk: 1, fault: crate::sinks::Fault::Zero });
+                if let Ok(mut b) = Builder::new(sink) {
+                    let _ = b.insert("a", 1);
+                    let _ = b.insert("ab", 2);
+                    let _ = b.insert("b", 3);
+                    let _ = b.insert("c", 3);
+                    let _ = b.finish();
+                }
+            }
+            _ => {
+                // a bounded stream over long keys read to its end, and a set operation abandoned after its first key
+                let mut keys: Vec<Vec<u8>> = (0..12).map(|i| long(i + n)).collect();
+                keys.sort();
+                keys.dedup();
+                let mut b = Builder::memory();
+                for (i, k) in keys.iter().enumerate() {
+                    let _ = b.insert(k, i as u64);
+                }
+                if let Ok(bytes) = b.into_inner() {
+                    if let Ok(f) = Fst::new(&bytes[..]) {
+                        let mut ob = fst::raw::OpBuilder::new();
+                        for _ in 0..6 {
+                            ob.push(&f);
+                        }
+                        let mut u = ob.union();
+                        let _ = u.next();
+                        drop(u);
+                        let mut st = f.range().lt(&keys[keys.len() - 2]).into_stream();
+                        while let Some(_) = st.next() {}
+                    }
+                }
             }
         }
     }));
